@@ -84,7 +84,6 @@ var lgTable = []lgEntry{
 	// ---- axis selection of the stacking shorthands (C10) -----------------------------------------------
 	{Rule: "L1", Func: "tensor.(*Dense).Hstack", Site: "$r.Concat(0,", Goal: "($r.Dims() == 1)", Props: []string{"C10"}, Why: "only a rank-1 receiver is stacked along axis 0 by Hstack"},
 	// ---- stacking / repetition (C10) -----------------------------------------------------------------
-	{Rule: "L1", Func: "tensor.(StdEng).StackDense", Site: "$r.denseSimpleStack(", Goal: "%allNoMat", Props: []string{"C10"}, Why: "the block-copy stack reads raw storage of every operand (the accumulator itself is rule LA)"},
 	{Rule: "L1", Func: "tensor.(StdEng).denseRepeat", Site: "fastCopyDenseRepeat(", Goal: "!(%ok && %td.IsMaterializable())", OrStep: ".Materialize()", Props: []string{"C10"}, Why: "block copies read the operand's raw storage: views and lazily transposed operands are materialised first"},
 	{Rule: "L1", Func: "tensor.(StdEng).denseRepeat", Site: "copyDenseSliced(", Goal: "!(%ok && %td.IsMaterializable())", OrStep: ".Materialize()", Props: []string{"C10"}, Why: "block copies read the operand's raw storage: views and lazily transposed operands are materialised first"},
 	{Rule: "L3", Func: "tensor.(StdEng).denseRepeat", Site: "fastCopyDenseRepeat(", Goal: "!(%ok && %td.DataOrder().IsColMajor())", OrStep: ".Materialize()|= copyDenseIter(", Props: []string{"C10", "C16"}, Why: "block copies read the operand as row-major storage: a column-major operand is copied into row-major form first (finding 61)"},
@@ -156,11 +155,13 @@ func normAtomsGeneral(b *ir.BExpr) *ir.BExpr {
 		case strings.HasSuffix(a, ".IsView()"):
 			return ir.BNot(ir.BAtom("(" + strings.TrimSuffix(a, ".IsView()") + ".viewOf == 0)"))
 		}
-		// HasSameOrder is symmetric: one spelling
+		// X.HasSameOrder(Y) is "both column-major or both row-major" (its definition is rule L0's):
+		// expanded, a test written as X.IsColMajor() == Y.IsColMajor() establishes the same fact
 		if i := strings.Index(a, ".HasSameOrder("); i > 0 && strings.HasSuffix(a, ")") {
 			l, r := a[:i], a[i+len(".HasSameOrder("):len(a)-1]
-			if balancedParens(l) && balancedParens(r) && r < l {
-				return ir.BAtom(r + ".HasSameOrder(" + l + ")")
+			if balancedParens(l) && balancedParens(r) {
+				x, y := ir.BAtom(l+".IsColMajor()"), ir.BAtom(r+".IsColMajor()")
+				return ir.BOr(ir.BAnd(x, y), ir.BAnd(ir.BNot(x), ir.BNot(y)))
 			}
 		}
 		if strings.HasPrefix(a, "(0 == ") && strings.HasSuffix(a, ".viewOf)") {
@@ -385,22 +386,46 @@ func LA(rc *RC) {
 	pos := rc.P.Pos(fi.Decl.Pos())
 	_, tree := sCanon(rc, fi)
 	// the accumulator: the bare local guarding denseSimpleStack
+	// (or its negation: `if viewStack { …denseViewStack…; return }` in front of the block copy)
 	acc := ""
+	neg := false
 	for _, n := range flatten(tree) {
 		if n.Kind == "if" && strings.HasPrefix(n.Head, "%") && !strings.ContainsAny(n.Head, " (") && strings.Contains(ir.Render(n.Kids), "$r.denseSimpleStack(") {
 			acc = n.Head
 		}
+		if n.Kind == "if" && strings.HasPrefix(n.Head, "!%") && !strings.ContainsAny(n.Head, " (") && strings.Contains(ir.Render(n.Kids), "$r.denseSimpleStack(") {
+			acc, neg = n.Head[1:], true
+		}
 	}
 	if acc == "" {
-		rc.S.Undec("LA", key, pos, "no boolean local guards the denseSimpleStack call")
+		// the block copy after an early exit of the other polarity
+		for i, n := range tree {
+			if n.Kind == "if" && strings.HasPrefix(n.Head, "%") && !strings.ContainsAny(n.Head, " (") && n.Else == nil && len(n.Kids) > 0 && n.Kids[len(n.Kids)-1].Kind == "ret" && !strings.Contains(ir.Render(n.Kids), "$r.denseSimpleStack(") && strings.Contains(ir.Render(tree[i+1:]), "$r.denseSimpleStack(") {
+				acc, neg = n.Head, true
+			}
+		}
+	}
+	if acc == "" {
+		if strings.Contains(ir.Render(tree), "$r.denseSimpleStack(") {
+			rc.S.Viol("LA", key, pos, "the block-copy stack is called without a boolean layout flag guarding it").Sig = "no flag"
+		} else {
+			rc.S.Undec("LA", key, pos, "no call of the block-copy stack found")
+		}
 		return
+	}
+	// the flag as "every operand can be read as a flat row-major block"
+	flagOf := func(f *ir.BExpr) *ir.BExpr {
+		if neg {
+			return ir.BNot(f)
+		}
+		return f
 	}
 	var bad []string
 	riT := ir.BAtom("$t.RequiresIterator()")
 	initOK := false
 	for _, n := range tree {
 		if n.Kind == "let" && n.Target == acc {
-			f := normAtomsGeneral(ir.ParseBool(n.Value))
+			f := flagOf(normAtomsGeneral(ir.ParseBool(n.Value)))
 			if ir.Implies([]*ir.BExpr{f}, ir.BNot(riT)) {
 				initOK = true
 			} else {
@@ -425,7 +450,7 @@ func LA(rc *RC) {
 		loops++
 		idx := strings.TrimPrefix(lp.Head, "range $others as ")
 		riO := ir.BAtom("$others[" + idx + "].RequiresIterator()")
-		old := ir.BAtom(acc)
+		old := flagOf(ir.BAtom(acc))
 		paths, ok := ir.EnumPaths(lp.Kids, 256)
 		if !ok {
 			rc.S.Undec("LA", key, pos, "too many paths in the accumulation loop")
@@ -437,7 +462,7 @@ func LA(rc *RC) {
 			assigned := false
 			for _, st := range p.Steps {
 				if st.Kind == "let" && st.Target == acc {
-					final = normAtomsGeneral(ir.ParseBool(st.Value))
+					final = flagOf(normAtomsGeneral(ir.ParseBool(st.Value)))
 					assigned = true
 				}
 			}
